@@ -19,7 +19,8 @@ from vt.util import cb, ci, pick, untraced
 LAST = None
 TPAT = [[], ['-t', 'a'], ['-t', '!a1'], ['-t', '0'], ['-t', 'b0', '-t', 'a1'], ['-t', '!0', '-t', '!u']]
 LPAT = [[], ['--layer', 'w.A'], ['--layer', '!w.A'], ['-u'], ['-f'], ['--layer', 'UnitTests', '--layer', 'w.B'], ['-u', '-f']]
-LVL = [[], ['--at-level', '2'], ['--all'], ['--only-level', '2'], ['--at-level', '3'], ['--only-level', '1']]
+LVL = [[], ['--at-level', '2'], ['--all'], ['--only-level', '2'], ['--at-level', '3'], ['--only-level', '1'],
+       ['--all', '--only-level', '2'], ['--only-level', '3', '--all'], ['--at-level', '0', '--only-level', '2']]
 SHUF = [[], ['--shuffle', '--shuffle-seed', '7'], ['--shuffle', '--shuffle-seed', '12345']]
 NAMES = ['u0', 'u1', 'a0', 'a1', 'b0', 'b1', 'x0', 'b2', 'x1']
 LEVELS = {'u0': 1, 'u1': 2, 'a0': 1, 'a1': 2, 'b0': 3, 'b1': 1, 'x0': 1, 'b2': 1, 'x1': 1}
@@ -38,11 +39,16 @@ def expected(t, l, lv):
         if any(r.search(n) for r in neg):
             continue
         lev = LEVELS[n]
-        if lv[:1] == ['--at-level'] and lev > int(lv[1]):
-            continue
-        if lv == [] and lev > 1:
-            continue
-        if lv[:1] == ['--only-level'] and lev != int(lv[1]):
+        if '--only-level' in lv:          # --only-level wins over --at-level / --all
+            if lev != int(lv[lv.index('--only-level') + 1]):
+                continue
+        elif '--all' in lv:
+            pass
+        elif '--at-level' in lv:
+            at = int(lv[lv.index('--at-level') + 1])
+            if at > 0 and lev > at:
+                continue
+        elif lev > 1:
             continue
         ln = LNAME[n[0]]
         unit = '-u' in l
@@ -80,11 +86,11 @@ def _listed(text):
     return out
 
 
-def selected(mode, t, l, lv, rep2, nest, sh=0):
+def selected(mode, t, l, lv, rep2, nest, sh=0, ba=False):
     global LAST
     mode = pick(MODES, mode)
     t, l, lv = pick(TPAT, t), pick(LPAT, l), pick(LVL, lv)
-    rep2, nest = cb(rep2), cb(nest)
+    rep2, nest, ba = cb(rep2), cb(nest), cb(ba)
     sh = pick(SHUF, sh)
     # the random module itself is replaced while CrossHair traces; --shuffle therefore draws from a recorded stream
     # (the C11 stub: same seed -> same stream in every process of the run)
@@ -97,7 +103,8 @@ def selected(mode, t, l, lv, rep2, nest, sh=0):
         SH.random = _random
     with untraced():
         tdd = {'A': 2} if mode == 'nie' else {}
-        world = FR.World({n: W.PASS for n in NAMES}, td=tdd, levels=LEVELS, order=['b0', 'u1', 'x0', 'a1', 'b1', 'a0', 'u0', 'b2', 'x1'], nest=nest, suite_level=5)
+        world = FR.World({n: W.PASS for n in NAMES}, td=tdd, levels=LEVELS, b_on_a=ba,      # ba: w.B derives from w.A, so it runs before w.A2 although its name sorts after it
+                          order=['b0', 'u1', 'x0', 'a1', 'b1', 'a0', 'u0', 'b2', 'x1'], nest=nest, suite_level=5)
     argv = t + l + lv + (['--repeat', '2'] if rep2 else []) + sh
     ref = FR.run(world, 'seq', argv=argv)
     if mode == 'list':
@@ -106,7 +113,7 @@ def selected(mode, t, l, lv, rep2, nest, sh=0):
         res = FR.run(world, mode, argv=argv)
     with untraced():
         why = oracle(mode, t, l, lv, rep2, ref, res)
-    LAST = (mode, tuple(t), tuple(l), tuple(lv), rep2, nest, why, tuple(e[2] for e in res.trace if e[1] == 'test'), tuple(sh))
+    LAST = (mode, tuple(t), tuple(l), tuple(lv), rep2, nest, why, tuple(e[2] for e in res.trace if e[1] == 'test'), tuple(sh), ba)
     return why is None
 
 
@@ -172,14 +179,14 @@ def selected_reach(*a):
     return LAST[6] is None and LAST[0] == 'j2' and len(LAST[7]) >= 3
 
 
-_P = [('mode', 'int'), ('t', 'int'), ('l', 'int'), ('lv', 'int'), ('rep2', 'bool'), ('nest', 'bool'), ('sh', 'int')]
+_P = [('mode', 'int'), ('t', 'int'), ('l', 'int'), ('lv', 'int'), ('rep2', 'bool'), ('nest', 'bool'), ('sh', 'int'), ('ba', 'bool')]
 _C = ', '.join(n for n, _ in _P)
 _B = '0 <= sh < 3 and 0 <= mode < %d and 0 <= t < %d and 0 <= l < %d and 0 <= lv < %d' % (len(MODES), len(TPAT), len(LPAT), len(LVL))
-_Q = _B + ' and (sh == 0 or (not rep2 and t <= 1 and lv <= 2 and l <= 2 and sh == 1)) and (not rep2 or (t <= 1 and l <= 1)) and ((t == 0) + (l == 0) + (lv == 0) >= 1)'
+_Q = _B + ' and (sh == 0 or (not rep2 and t <= 1 and lv <= 2 and l <= 2 and sh == 1)) and (not rep2 or (t <= 1 and l <= 1)) and ((t == 0) + (l == 0) + (lv == 0) >= 1) and (not ba or (t == 0 and lv == 0 and not rep2 and sh == 0 and l <= 2))'
 
 
 def _v(**kw):
-    v = dict(mode=0, t=0, l=0, lv=0, rep2=False, nest=True, sh=0)
+    v = dict(mode=0, t=0, l=0, lv=0, rep2=False, nest=True, sh=0, ba=False)
     v.update(kw)
     return v
 
@@ -202,6 +209,6 @@ SPEC = {
                     'thorough': ['mode == %d and lv == %d and %s' % (m, k, n) for m in range(len(MODES)) for k in range(len(LVL)) for n in ('nest', 'not nest')]},
          'reach': 'selected_reach', 'reach_bounds': {'quick': _B + ' and t == 0 and l == 0 and lv == 0', 'thorough': _B + ' and t == 0 and l == 0 and lv == 0'},
          'timeout': {'quick': 400, 'thorough': 1700},
-         'fidelity': [_v(), _v(mode=5, t=2, lv=2), _v(mode=2, l=2, lv=1, rep2=True), _v(mode=1, t=4, l=5, lv=4, nest=False), _v(mode=4, l=3), _v(mode=1, sh=1), _v(mode=5, sh=2, lv=2)]},
+         'fidelity': [_v(), _v(mode=5, t=2, lv=2), _v(mode=2, l=2, lv=1, rep2=True), _v(mode=1, t=4, l=5, lv=4, nest=False), _v(mode=4, l=3), _v(mode=1, sh=1), _v(mode=5, sh=2, lv=2), _v(mode=5, ba=True), _v(mode=2, ba=True, lv=6), _v(mode=1, lv=8, t=1)]},
     ],
 }
